@@ -333,10 +333,34 @@ static void run_c13s(long cases) {
         std::string got; double end = lv::now() + 4.0 * lv::load_factor();
         while (got.size() < data.size() && lv::now() < end) b.read_some(got, 100, data.size() - got.size());
         g_evals++;
-        if (got != data) violation("c13:server:write-behind-stale-entry-not-drained", "a write queued behind a write for a vanished connection was not delivered within the bound (" + std::to_string(got.size()) + " of " + std::to_string(data.size()) + " bytes): the drain loop stopped with items queued and no notification pending", g_case);
+        if (got != data) violation(g_opts.get("kp", "c13") + ":server:write-behind-stale-entry-not-drained", "a write queued behind a write for a vanished connection was not delivered within the bound (" + std::to_string(got.size()) + " of " + std::to_string(data.size()) + " bytes): the drain loop stopped with items queued and no notification pending", g_case);
         g_distinct.add("c13s|" + std::to_string(n % 64));
         count("stale_then_live_writes");
         { std::lock_guard<std::mutex> g(g_m); g_peers.erase(la); }
+        {   // bursts: while the worker is kept away from its loop, far more items pile up in its queues than it usually finds
+            // there (new connections in the peers queue, foreign writes in the writes queue); once it is back every one of
+            // them must be taken: a consumer that stops draining with items queued has used up the only notification
+            int K = r.range(130, 220), Wn = r.range(130, 300);
+            c.send_all("SLEEP\nSLEEP\n");
+            lv::msleep(30);
+            std::vector<std::unique_ptr<lv::Conn>> burst; for (int k = 0; k < K; k++) { burst.emplace_back(new lv::Conn()); if (!burst.back()->open_to(srv.port)) { burst.pop_back(); break; } burst.back()->send_all("PING\n"); }
+            std::string want; for (int k = 0; k < Wn; k++) { std::string d = tagged(20000 + (unsigned)k, 40); want += d; pb->send(RawBuffer(d, d.size())); }
+            std::string gotw; double e2 = lv::now() + 6.0 * lv::load_factor();
+            while (gotw.size() < want.size() && lv::now() < e2) b.read_some(gotw, 100, want.size() - gotw.size());
+            g_evals++;
+            if (gotw != want) violation(g_opts.get("kp", "c13") + ":server:write-burst-not-drained", std::to_string(Wn) + " writes queued from a foreign thread while the worker was busy: " + std::to_string(gotw.size()) + " of " + std::to_string(want.size()) + " bytes arrived within the bound" + (gotw == want.substr(0, gotw.size()) ? " (a prefix: the rest is still queued)" : " (stream differs)"),
+                                    Json().num("i", idx).str("phase", "c13-server-burst").num("writes", Wn).num("bytes_received", (long long)gotw.size()).done());
+            int answered = 0; double e3 = lv::now() + 6.0 * lv::load_factor();
+            for (auto& bc : burst) { std::string pg; while (pg.size() < 5 && lv::now() < e3) bc->read_some(pg, 50, 5 - pg.size()); if (pg == "PONG!") answered++; }
+            g_evals++;
+            if (answered != (int)burst.size()) violation(g_opts.get("kp", "c13") + ":server:connection-burst-not-drained", std::to_string(burst.size()) + " connections accepted while the worker was busy: only " + std::to_string(answered) + " were registered and answered within the bound",
+                                    Json().num("i", idx).str("phase", "c13-server-burst").num("connections", (long long)burst.size()).num("answered", answered).done());
+            count("burst_connections", (long)burst.size()); count("burst_writes", Wn);
+            std::vector<int> ports; for (auto& bc : burst) ports.push_back(bc->localPort);
+            burst.clear();
+            lv::msleep(20);
+            { std::lock_guard<std::mutex> g(g_m); for (int pt : ports) g_peers.erase(pt); }
+        }
     }
     srv.stop();
 }
